@@ -683,50 +683,91 @@ func (c *Check) idEqualsComplete(rule string) {
 		if depth > 6 {
 			return m
 		}
-		eachInstr(fn, func(i ssa.Instruction) {
-			switch x := i.(type) {
+		// what one comparison establishes when it holds: a set of fields (nil if it is not a comparison of the two ids)
+		var establishes func(v ssa.Value) map[string]bool
+		establishes = func(v ssa.Value) map[string]bool {
+			switch x := v.(type) {
 			case *ssa.BinOp:
 				if x.Op != token.EQL {
-					return
+					return nil
 				}
 				fx, fy := fieldOf(x.X), fieldOf(x.Y)
 				sx, sy := side(fn, x.X), side(fn, x.Y)
 				if fx == "" || fy == "" || sx == "" || sy == "" {
-					return
+					return nil
 				}
 				if sx == sy {
 					bad[fn] = "compares " + fx + " of the " + sx + " id with " + fy + " of the same id"
-					return
+					return map[string]bool{}
 				}
-				if fx == fy {
-					m[fx] = true
-				} else {
+				if fx != fy {
 					bad[fn] = "compares " + fx + " with " + fy
+					return map[string]bool{}
 				}
+				return map[string]bool{fx: true}
 			case *ssa.Call:
 				g := x.Call.StaticCallee()
 				if g == nil || g.Name() != "Equals" || len(x.Call.Args) != 2 {
-					return
+					return nil
 				}
 				sa, sb := side(fn, x.Call.Args[0]), side(fn, x.Call.Args[1])
 				if sa == "" || sb == "" {
-					return
+					return nil
 				}
 				if sa == sb {
 					bad[fn] = "hands both sides of " + fnName(g) + " the " + sa + " id"
-					return
+					return map[string]bool{}
 				}
+				out := map[string]bool{}
 				for f := range cover(g, depth+1) {
-					m[f] = true
+					out[f] = true
 				}
+				return out
 			}
-		})
-		// the result is a conjunction: no leaf of the returned value is the constant true
+			return nil
+		}
+		// every way of answering "equal": the fields established by the conditions that dominate it plus the returned
+		// comparison itself; the method covers what all of them cover
+		first := true
 		for _, b := range fn.Blocks {
-			if r, ok := b.Instrs[len(b.Instrs)-1].(*ssa.Return); ok && len(r.Results) == 1 {
-				for _, lf := range retLeaves(r.Results[0], b, map[ssa.Value]bool{}) {
-					if isConstBool(lf.val, true) {
-						bad[fn] = "can answer true without comparing"
+			r, ok := b.Instrs[len(b.Instrs)-1].(*ssa.Return)
+			if !ok || len(r.Results) != 1 {
+				continue
+			}
+			for _, lf := range retLeaves(r.Results[0], b, map[ssa.Value]bool{}) {
+				if isConstBool(lf.val, false) {
+					continue
+				}
+				got := map[string]bool{}
+				for _, a := range factsAt(lf.blk) {
+					var est map[string]bool
+					switch a.Op {
+					case "eq":
+						if a.Y != nil {
+							est = establishes(&ssa.BinOp{Op: token.EQL, X: a.X, Y: a.Y})
+						}
+					case "true":
+						est = establishes(a.X)
+					}
+					for f := range est {
+						got[f] = true
+					}
+				}
+				if !isConstBool(lf.val, true) {
+					for f := range establishes(lf.val) {
+						got[f] = true
+					}
+				}
+				if first {
+					for f := range got {
+						m[f] = true
+					}
+					first = false
+				} else {
+					for f := range m {
+						if !got[f] {
+							delete(m, f)
+						}
 					}
 				}
 			}
